@@ -366,7 +366,7 @@ func pipelineFuncs(p *core.Program, pl *pipeline) []*core.Func {
 	for _, f := range p.Funcs() {
 		rel := core.RelPkg(f.Pkg.PkgPath)
 		file := filepath.Base(p.Fset.Position(f.Node().Pos()).Filename)
-		if (rel == "pkg/gengo" && (file == "context.go" || file == "genfile.go")) || (rel == "pkg/sumfile" && f.Root() == pl.save) {
+		if (rel == "pkg/gengo" && (file == "context.go" || file == "genfile.go")) || (rel == "pkg/sumfile" && pl.save.Has(f)) {
 			out = append(out, f)
 		}
 	}
